@@ -389,6 +389,8 @@ class Interp:
                 return ("vec", self.content(path, ("V", loc)))
             v = self._patched(path, loc, v)
             return self._with_fields(path, loc, v)
+        if k == "K" and loc in st:
+            return st[loc]
         return ("unknown", "content", loc)
 
     def _with_fields(self, path, loc, c):
